@@ -52,31 +52,39 @@ impl<'a> RegExp<'a> {
         crate::verif::record(crate::verif::Event::Expr(ast.to_string()));
 
         if config.is_start_anchor_disabled && config.is_end_anchor_disabled {
-            let mut regex = Self::convert_expr_to_regex(&ast, config);
-
-            if config.is_verbose_mode_enabled {
-                // Remove line breaks before checking matches, otherwise check will be incorrect.
-                regex = Regex::new(&regex.to_string().replace('\n', "")).unwrap();
-            }
-
-            if !Self::is_each_test_case_matched_after_rotating_alternations(
-                &regex, &mut ast, test_cases,
-            ) {
-                #[cfg(grex_verif)]
-                crate::verif::record(crate::verif::Event::Branch("unminimized"));
-                dfa = Dfa::from(&grapheme_clusters, false, config);
-                ast = Expression::from(dfa, config);
-                regex = Self::convert_expr_to_regex(&ast, config);
-
-                if !Self::regex_matches_all_test_cases(&regex, test_cases) {
-                    #[cfg(grex_verif)]
-                    crate::verif::record(crate::verif::Event::Branch("alternation"));
-                    let mut exprs = vec![];
-                    for cluster in grapheme_clusters {
-                        let literal = Expression::new_literal(cluster, config);
-                        exprs.push(literal);
+            // An expression which the regex crate cannot compile (surrogate pairs,
+            // size limit exceeded) cannot be checked and is kept as it is.
+            if let Some(mut regex) = Self::convert_expr_to_regex(&ast, config) {
+                if config.is_verbose_mode_enabled {
+                    // Remove line breaks before checking matches, otherwise check will be incorrect.
+                    if let Ok(regex_without_line_breaks) =
+                        Regex::new(&regex.to_string().replace('\n', ""))
+                    {
+                        regex = regex_without_line_breaks;
                     }
-                    ast = Expression::new_alternation(exprs, config);
+                }
+
+                if !Self::is_each_test_case_matched_after_rotating_alternations(
+                    &regex, &mut ast, test_cases,
+                ) {
+                    #[cfg(grex_verif)]
+                    crate::verif::record(crate::verif::Event::Branch("unminimized"));
+                    dfa = Dfa::from(&grapheme_clusters, false, config);
+                    ast = Expression::from(dfa, config);
+
+                    let is_each_test_case_matched = Self::convert_expr_to_regex(&ast, config)
+                        .is_some_and(|regex| Self::regex_matches_all_test_cases(&regex, test_cases));
+
+                    if !is_each_test_case_matched {
+                        #[cfg(grex_verif)]
+                        crate::verif::record(crate::verif::Event::Branch("alternation"));
+                        let mut exprs = vec![];
+                        for cluster in grapheme_clusters {
+                            let literal = Expression::new_literal(cluster, config);
+                            exprs.push(literal);
+                        }
+                        ast = Expression::new_alternation(exprs, config);
+                    }
                 }
             }
         }
@@ -123,12 +131,12 @@ impl<'a> RegExp<'a> {
             .is_ok_and(|regex| regex.is_match(&original.to_string()))
     }
 
-    fn convert_expr_to_regex(expr: &Expression, config: &RegExpConfig) -> Regex {
+    fn convert_expr_to_regex(expr: &Expression, config: &RegExpConfig) -> Option<Regex> {
         if config.is_output_colorized {
             let color_replace_regex = Regex::new("\u{1b}\\[(?:\\d+;\\d+|0)m").unwrap();
-            Regex::new(&color_replace_regex.replace_all(&expr.to_string(), "")).unwrap()
+            Regex::new(&color_replace_regex.replace_all(&expr.to_string(), "")).ok()
         } else {
-            Regex::new(&expr.to_string()).unwrap()
+            Regex::new(&expr.to_string()).ok()
         }
     }
 
